@@ -81,8 +81,10 @@ def domain_metadata(r, fmt):
     if fmt == "aif":
         keys.remove("Ключ")  # CIF data names are restricted to printable ASCII
     for k in r.sample(keys, r.randint(0, 6)):
-        kind = r.choice(["text", "int", "float", "bool", "negint", "bigfloat"])
-        if kind == "text":
+        kind = r.choice(["text", "int", "float", "bool", "negint", "bigfloat", "zero"])
+        if kind == "zero":
+            v = 0
+        elif kind == "text":
             v = r.choice(DOMAIN_TEXT)
         elif kind == "int":
             v = r.randint(0, 5000)
